@@ -301,6 +301,26 @@ func TestC03(t *testing.T) {
 				"acknowledged key lost after a leave that raced a join at the successor: %s", p)
 		}
 	}
+	// scenario tier: hand-over of thousands of keys (values, children, leases) by a leave and a join
+	for b, name := range []string{"memory", "aof", "sqlite"} {
+		nKeys := ev.Pick(3000, 12000)
+		if b > 0 {
+			nKeys = ev.Pick(2400, 6000)
+		}
+		if p := bulkHandover(t, nKeys, b); p != "" {
+			if len(p) > 13 && p[:13] == "precondition:" {
+				rec.Inconclusive("scenario-precondition")
+				t.Logf("bulk hand-over scenario (%s): %s", name, p)
+			} else {
+				rec.Fail(t, "bulk-handover-changes-data", map[string]any{"schedule": fmt.Sprintf("ring {1<<44, 9<<44, 13<<44} on %s stores, %d keys with their own value (every 7th with 1-3 children, every 41st leased); 9<<44 (owner of half of them) leaves gracefully; 7<<44 joins; every key is read back after each step", name, nKeys), "problem": p}, "%s", p)
+			}
+		} else {
+			n, k := name, nKeys
+			rec.Case(true, "scenario:bulk-handover:"+n, func() any {
+				return map[string]any{"scenario": "graceful leave of the owner of half of the keys, then a join into the enlarged range; all keys, children and leases read back after each step", "backend": n, "keys": k}
+			}, "scenario:bulk-handover")
+		}
+	}
 	// scenario tier: a leave that exhausts its whole retry budget (successor membership-locked
 	// for ~2 s of back-off) - too slow to be hit by the generated histories at their size
 	if p, st := leaveGivesUpWhileSuccessorBusy(8 * time.Second); p != "" {
